@@ -559,9 +559,13 @@ class DAGRunConcurrentManager(DAGRunManagerLike):
                 subgraph_node_id,
                 lambda: (
                     self.__has_subgraph_error(oneof_dag)  # noqa: B023
-                    or self._node_storage.exists_result_type(
-                        subgraph_node_id,  # noqa: B023
-                        exclude_type=(Recurrent,),
+                    or (
+                        # None is a valid node result, so the presence of the result has to be checked explicitly
+                        self._node_storage.exists_node_result(subgraph_node_id)  # noqa: B023
+                        and not isinstance(
+                            self._node_storage.get_node_result(subgraph_node_id),  # noqa: B023
+                            Recurrent,
+                        )
                     )
                 ),
             )
